@@ -203,6 +203,9 @@ func Convert(value any, typ reflect.Type) (any, error) { //nolint: gocyclo
 			}
 			return result.Interface(), nil
 		} else if r, ok := value.(Range); ok {
+			if r.Len() > MaxRangeArrayLen {
+				return nil, typeErrorf("a range of more than %d elements can't be converted to an array", MaxRangeArrayLen)
+			}
 			return r.AsArray(), nil
 		}
 		switch rv.Kind() {
